@@ -347,7 +347,9 @@ def one_case(ctx, case, label="gen"):
             xs = [at(t, p_) for t in trees]
             if any(x is None or x["k"] != "num" or x["v"] != x["v"] for x in xs) or len({x["v"] for x in xs}) < len(xs):
                 continue
-            others.append((p_[-1] != tp[-1], ctx.rng.random(), list(p_), xs[ctx.rng.randrange(len(xs))]["v"]))
+            # asked at a value one of the instances has (answered from the value map) or beside it (interpolated)
+            others.append((p_[-1] != tp[-1], ctx.rng.random(), list(p_),
+                           xs[ctx.rng.randrange(len(xs))]["v"] + (0.0 if ctx.rng.random() < 0.35 else 0.37)))
         others.sort()
         history = [(o[2], o[3]) for o in others[:2]] + [(tp, v + 1.0), (tp, v)]
         objs = [build(t) for t in trees]
